@@ -3,6 +3,7 @@ import copy
 
 from simkit import kernel as K
 from simkit import instr
+from simkit import coldrun
 from worlds import thread_world as W
 from models import corpus, gen
 
@@ -13,8 +14,8 @@ RERECORD_ON_SHRINK = True
 MINIMISE_BUDGET_S = 90.0
 
 TIERS = {
-    'quick': {'runs': 1400, 'budget_s': 50, 'batch': 8},
-    'thorough': {'runs': 60000, 'budget_s': 900, 'batch': 40},
+    'quick': {'runs': 3840, 'budget_s': 55, 'batch': 16},
+    'thorough': {'runs': 120000, 'budget_s': 900, 'batch': 32},
 }
 
 RULE = ('each run = K in {2,3,4} actor threads, each with 1..4 seeded public-API calls (parse_message/segment/field/'
@@ -26,6 +27,7 @@ RULE = ('each run = K in {2,3,4} actor threads, each with 1..4 seeded public-API
 
 ASSUMPTIONS = [
     'pre-emption at source-line granularity (PEP 669 LINE events) in every hl7apy function; C code is atomic',
+    'every run executes in a fresh fork of a process that imported and instrumented hl7apy but never called it, and in half of the runs the concurrent phase precedes the sequential reference pass, so first-call / lazy-cache races are met cold',
     'version modules are imported before the run: two threads racing the first import of a version module is protected by the import lock, not explored',
     'the wall clock is frozen (MSH-7 is a constant), so "the same call run alone" is well defined',
     'global-state digest covers defaults, delimiter dicts, BASE_DATATYPES maps, class-level child_classes/cls_attrs; the structure tables are checked for identity, not content',
@@ -40,7 +42,8 @@ COMPONENTS = {
 
 def required_probes(tier):
     return ['switch_in_datatype_factory', 'two_actors_in_same_function', 'switch_in_load_library',
-            'versions_overlap', 'strict_and_tolerant_overlap']
+            'versions_overlap', 'strict_and_tolerant_overlap', 'cold_process_run', 'enumerated_switch_landed',
+            'concurrent_phase_before_reference_pass']
 
 
 def extra_coverage(agg):
@@ -51,30 +54,75 @@ def setup():
     instr.instrument_hl7apy()
 
 
+SWEEP_G = 128        # consecutive run indices of a sweep block enumerate the switch points of one program
+BASE_SEED = 0
+SMALL_KINDS = ['factory', 'factory', 'parse_field', 'parse_component', 'segment_build', 'component_add_sub', 'parse_segment']
+
+
+def generate_sweep(idx):
+    """Enumerated forced switches (the property's own quantifier): a small program, derived from the block
+    number only, is run once per strong-touch line event j = idx mod G with a switch forced exactly there and
+    the pre-empted thread held until all others have run through."""
+    block = idx // SWEEP_G
+    rng = K.derive_rng('%s:C19-sweep:%d' % (BASE_SEED, block), 'program')
+    n = rng.choice([2, 2, 3])
+    shared = rng.choice(corpus.T.VERSIONS)
+    actors = []
+    for a in range(n):
+        tok = gen.Tokens(start=a * 100000 + block * 100, prefix='abcd'[a])
+        prog = [corpus.gen_call(rng, tok, cid='abcd'[a], kinds=SMALL_KINDS, invalid_p=0.1,
+                                version=shared if rng.random() < 0.8 else None)
+                for _ in range(rng.choice([1, 1, 2]))]
+        actors.append(prog)
+    cfg = {'mean_budget': None, 'touch_p': 0, 'order': 'threads_first', 'sweep_at': idx % SWEEP_G}
+    return {'world': 'threads', 'seed': block, 'cfg': cfg, 'actors': actors}
+
+
 def generate(seed, idx, tier):
+    if (idx // SWEEP_G) % 3 != 2:
+        return generate_sweep(idx)
     rng = K.derive_rng(seed, 'program')
     n = rng.choice([2, 2, 3, 3, 4])
     actors = []
+    shared_version = rng.choice(corpus.T.VERSIONS)     # same-version contention is where shared tables meet
     for a in range(n):
         tok = gen.Tokens(start=a * 100000 + (seed % 1000) * 100, prefix='abcd'[a])
-        prog = [corpus.gen_call(rng, tok, cid='abcd'[a]) for _ in range(rng.choice([1, 1, 2, 2, 3, 4]))]
+        prog = [corpus.gen_call(rng, tok, cid='abcd'[a], version=shared_version if rng.random() < 0.5 else None)
+                for _ in range(rng.choice([1, 1, 2, 2, 3, 4]))]
         actors.append(prog)
-    cfg = {'mean_budget': rng.choice([20, 200, 200, 2000, 20000, None]), 'touch_p': rng.choice([0, 0.1, 0.5])}
+    cfg = {'mean_budget': rng.choice([20, 200, 200, 2000, 20000, None]), 'touch_p': rng.choice([0, 0.1, 0.5]),
+           'order': rng.choice(['ref_first', 'threads_first']),
+           'deep_hold_at': sorted({int(2 ** (rng.random() * 12)) for _ in range(rng.choice([0, 1, 2, 3]))})}
     return {'world': 'threads', 'seed': seed, 'cfg': cfg, 'actors': actors}
 
 
 def execute(case):
+    # each run in a fresh fork of a process that has never called the library: caches are cold
+    return coldrun.run_in_fork(_execute, case)
+
+
+def _execute(case):
     w = W.execute(case)
     k = w.k
     faults = {}
+    probes = dict(w.probes)
+    probes['cold_process_run'] = 1
+    if case['cfg'].get('sweep_at') is not None:
+        probes['sweep_run'] = 1
+        if k.sweep_hit is not None:
+            probes['enumerated_switch_landed'] = 1
+    if case['cfg'].get('order') == 'threads_first':
+        probes['concurrent_phase_before_reference_pass'] = 1
     if k.lib_switches:
         faults['forced_context_switch'] = k.lib_switches
     if k.touch_cuts:
         faults['switch_at_touch_point'] = k.touch_cuts
+    if k.deep_holds:
+        faults['priority_change_point'] = k.deep_holds
     sample = {'actors': [[corpus.brief(c) for c in prog] for prog in case['actors']],
               'cfg': case['cfg'], 'context_switches_in_library': k.lib_switches, 'line_events': k.lines}
     return {
-        'violations': w.violations, 'digest': k.digest(), 'probes': w.probes, 'faults': faults,
+        'violations': w.violations, 'digest': k.digest(), 'probes': probes, 'faults': faults,
         'nontrivial': k.live_switches > 0, 'ilv': k.switch_trace.hexdigest(), 'sim_us': 0, 'lines': k.lines,
         'schedule': k.recorded, 'fault_plan': [], 'sample': sample, 'states': [],
         'ops': sum(len(p) for p in case['actors']),
